@@ -242,7 +242,8 @@ def duration_shape(roles, K_DUR):
                 if inside_body:
                     return False, 'the second clock read happens inside the try body (before the operation ends)'
                 return True, '%s: second read of %s() minus `%s` read before the try' % (norm(n), norm(l.func), r.id)
-    return False, 'no `clock() - start` with start read from the same clock before the try'
+    raise AnalysisError('duration computation has a shape the rule does not model (expected `clock() - start` in the scope with '
+                        '`start = clock()` before the try)')
 
 
 def extractor_merge(pm):
